@@ -49,6 +49,8 @@ theorem NodeOk.mono {eg eg' : List Name} {ts ts' : Bool} {n : Node} (h : NodeOk 
   | ctor m t => exact TagOk.mono h he ht
   | call f => trivial
   | nop => trivial
+  | trace b => trivial
+  | raise => trivial
 
 theorem CtxOk.mono {eg eg' : List Name} {ts ts' : Bool} {c : Ctx} (h : CtxOk eg ts c)
     (he : ∀ n, n ∈ eg → n ∈ eg') (ht : ts = true → ts' = true) : CtxOk eg' ts' c :=
@@ -117,6 +119,9 @@ theorem compileSimple_ok (ext : Ext) (tr : Bool) (funs : Funs) (p : Proc) (s : S
     split
     · exact ⟨rfl, rfl, fun n h => by injection h with h; subst h; trivial⟩
     · exact ⟨rfl, rfl, fun n h => by cases h⟩
+  | trace b => exact ⟨rfl, rfl, fun n h => by simp only [compileSimple] at h; injection h with h; subst h; trivial⟩
+  | raise => exact ⟨rfl, rfl, fun n h => by simp only [compileSimple] at h; injection h with h; subst h; trivial⟩
+  | bad => exact ⟨rfl, rfl, fun n h => by simp only [compileSimple] at h; cases h⟩
 
 theorem compileSimples_ok (ext : Ext) (tr : Bool) (funs : Funs) (ts : Bool) (htr : tr = true → ts = true) :
     ∀ (body : List Simple) (p : Proc), (∀ n, n ∈ p.granted → n ∈ p.everGranted) →
@@ -290,40 +295,45 @@ theorem compileTops_ok (ext : Ext) (tr ts : Bool) (htr : tr = true → ts = true
 /-! ### execution -/
 
 theorem runNodes_ok {eg : List Name} {ts : Bool} {funs : Funs} (hf : FunsOk eg ts funs) :
-    ∀ (fuel : Nat) (ns : List Node) (objs : List Obj), NodesOk eg ts ns → ObjsOk eg ts objs →
-      ObjsOk eg ts (runNodes funs fuel ns objs) := by
+    ∀ (fuel : Nat) (ns : List Node) (r : RunSt), NodesOk eg ts ns → ObjsOk eg ts r.objs →
+      ObjsOk eg ts (runNodes funs fuel ns r).objs := by
   intro fuel
   induction fuel with
-  | zero => intro ns objs _ ho; simpa [runNodes] using ho
+  | zero => intro ns r _ ho; simpa [runNodes] using ho
   | succ k ih =>
-    intro ns objs hn ho
+    intro ns r hn ho
     cases ns with
     | nil => simpa [runNodes] using ho
     | cons n rest =>
       have hrest : NodesOk eg ts rest := fun x hx => hn x (List.mem_cons_of_mem _ hx)
-      cases n with
-      | ctor m t =>
-        simp only [runNodes]
-        apply ih rest _ hrest
-        intro o hm
-        simp only [List.mem_append, List.mem_singleton] at hm
-        rcases hm with hm | hm
-        · exact ho o hm
-        · subst hm; exact hn (.ctor m t) (List.mem_cons_self ..)
-      | nop => simp only [runNodes]; exact ih rest objs hrest ho
-      | call f =>
-        simp only [runNodes]
-        split
-        · rename_i b hl
+      simp only [runNodes]
+      split
+      · exact ho
+      · cases n with
+        | ctor m t =>
+          simp only
           apply ih rest _ hrest
-          apply ih b objs _ ho
-          unfold lookupFun at hl
-          split at hl
-          · rename_i e he
-            injection hl with hl; subst hl
-            exact hf e (List.mem_of_find?_eq_some he)
-          · cases hl
-        · exact ih rest objs hrest ho
+          intro o hm
+          simp only [List.mem_append, List.mem_singleton] at hm
+          rcases hm with hm | hm
+          · exact ho o hm
+          · subst hm; exact hn (.ctor m t) (List.mem_cons_self ..)
+        | nop => exact ih rest r hrest ho
+        | trace b => exact ih rest _ hrest ho
+        | raise => exact ho
+        | call f =>
+          simp only
+          split
+          · rename_i b hl
+            apply ih rest _ hrest
+            apply ih b r _ ho
+            unfold lookupFun at hl
+            split at hl
+            · rename_i e he
+              injection hl with hl; subst hl
+              exact hf e (List.mem_of_find?_eq_some he)
+            · cases hl
+          · exact ih rest r hrest ho
 
 /-! ### one host operation, all host histories -/
 
@@ -377,6 +387,18 @@ theorem hostStep_ok (ext : Ext) (w : World) (op : HostOp) (hw : WorldOk w) : Wor
     · exact (hw.ctxs c hc).mono (fun _ h => h) ht
     · injection hc with hc; subst hc
       exact ⟨(fun h => by simp only at h; simp [h]), (fun o ho => by cases ho), (fun e he => by cases he)⟩
+  | setTrace k b =>
+    simp only [hostStep]
+    split
+    · rename_i c hk
+      refine ⟨?_, hw.exes, hw.granted⟩
+      intro c' hc'
+      rcases mem_set_some hc' with h | h
+      · exact hw.ctxs c' h
+      · injection h with h; subst h
+        have h0 := hw.ctxs c (getCtx_mem hk)
+        exact ⟨h0.flag, h0.objs, h0.funs⟩
+    · exact hw
   | setTrusted k b =>
     simp only [hostStep]
     split
@@ -399,7 +421,9 @@ theorem hostStep_ok (ext : Ext) (w : World) (op : HostOp) (hw : WorldOk w) : Wor
       simp only [List.mem_append, List.mem_singleton] at hc'
       rcases hc' with h | h
       · exact hw.ctxs c' h
-      · injection h with h; subst h; exact hw.ctxs c' (getCtx_mem hk)
+      · injection h with h; subst h
+        have h0 := hw.ctxs c (getCtx_mem hk)
+        exact ⟨h0.flag, h0.objs, h0.funs⟩
     · exact hw
   | free k =>
     simp only [hostStep]
@@ -460,7 +484,7 @@ theorem hostStep_ok (ext : Ext) (w : World) (op : HostOp) (hw : WorldOk w) : Wor
       rcases mem_set_some hc' with h | h
       · exact hw.ctxs c' h
       · injection h with h; subst h
-        exact ⟨hc.flag, runNodes_ok hc.funs _ _ _ (hw.exes ns (getExe_mem hx)) hc.objs, hc.funs⟩
+        exact ⟨hc.flag, runNodes_ok hc.funs _ _ ⟨c.objs, c.trace, false⟩ (hw.exes ns (getExe_mem hx)) hc.objs, hc.funs⟩
     · exact hw
   | freeExe x =>
     simp only [hostStep]
